@@ -97,30 +97,11 @@ type c15DurObs struct {
 	UErr    string `json:"unmarshal_err,omitempty"`
 	Back    int64  `json:"back"`
 	Panic   string `json:"panic,omitempty"`
+	Doc     string `json:"doc,omitempty"` // the carrier document (hand-over modes other than the direct call)
 }
 
-// c15RunDur runs the real MarshalText / UnmarshalText pair on d.
-func c15RunDur(d int64) c15DurObs {
-	var o c15DurObs
-	p, msg := safely(func() {
-		b, err := saml.Duration(d).MarshalText()
-		if err != nil {
-			o.MErr = err.Error()
-			return
-		}
-		o.Text, o.TextNil = string(b), b == nil
-		var back saml.Duration
-		if err := back.UnmarshalText(b); err != nil {
-			o.UErr = err.Error()
-			return
-		}
-		o.Back = int64(back)
-	})
-	if p {
-		o.Panic = msg
-	}
-	return o
-}
+// c15RunDur runs the real MarshalText / UnmarshalText pair on d (hand-over mode "call").
+func c15RunDur(d int64) c15DurObs { return c15RunDurVia(c15CallHow, d) }
 
 type c15Verdict struct {
 	Key    string // "" = no violation
@@ -216,29 +197,10 @@ type c15InstObs struct {
 	Back  c15Civil `json:"back"`
 	Rem   int      `json:"rem"`
 	Panic string   `json:"panic,omitempty"`
+	Doc   string   `json:"doc,omitempty"`
 }
 
-func c15RunInst(t time.Time) c15InstObs {
-	var o c15InstObs
-	p, msg := safely(func() {
-		b, err := saml.RelaxedTime(t).MarshalText()
-		if err != nil {
-			o.MErr = err.Error()
-			return
-		}
-		o.Text = string(b)
-		var back saml.RelaxedTime
-		if err := back.UnmarshalText(b); err != nil {
-			o.UErr = err.Error()
-			return
-		}
-		o.Back, o.Rem = c15CivilOf(time.Time(back))
-	})
-	if p {
-		o.Panic = msg
-	}
-	return o
-}
+func c15RunInst(t time.Time) c15InstObs { return c15RunInstVia(c15CallHow, t) }
 
 // c15WantOf is the statement's "same instant rounded to the millisecond in UTC":
 // the nearest millisecond, an exact half may go either way.
